@@ -40,6 +40,13 @@ Sensitivity (scratch copies, quick tier, seed 1):
   * web.py set_cookie path default "/" -> ""                         -> caught (attributes_differ: missing:path)
   * httputil.py _unquote_replace ignores octal escapes               -> caught (readback_value: ";" read back wrong)
   * web.py httponly only honoured together with secure               -> caught (attributes_differ: missing:httponly)
+  * web.py set_cookie: exemption from the attribute validation widened from "comment" to ("comment", "expires"):
+    Expires="<date>; Domain=evil.example; HttpOnly" through the deprecated spelling injects attributes   -> caught
+    (attributes_differ extra:domain,httponly; "legacy" sweep + exploration).  Missed before: the legacy-kwarg
+    generator knew only Domain/Path/SameSite/Version/Comment.  It now takes every key of
+    http.cookies.Morsel._reserved of the running Python in display / upper / capitalised / lower spelling
+    (Expires, Max-Age, Secure, HttpOnly, Version, Comment ..., 24 spellings + 2 unknown ones) x 23 payloads, and the
+    enumerated "legacy" part runs each alone and on top of explicit parameters via set / signed / clear (1372 cases).
   * web.py set_cookie drops the earlier same-name morsel *before* validating the new one, so a rejected
     call (caught by the application) deletes the cookie an earlier call had set      -> caught
     (rejected_call_removed_earlier_cookie: set('a','ok'); set('a', EURO SIGN)).  Missed before: what a raising call
@@ -469,7 +476,27 @@ ATTR_TEXT = {
     "path": ["/", "/", "", None, "/x", "/a,b", "/a=b", "/a b", "/a;b", "/\xe9", "/☃", "/a\tb"],
     "samesite": [None, "Lax", "Strict", "None", "lax", "", "a;b", "☃", "La x"],
 }
-LEGACY_VALUES = ["x", "1", "ex.com", "a;b", "a; Secure", "\xe9", "☃", "a b", " x", "x ", "a\r\nb", "", "a,b", "a=b", "\x00"]
+LEGACY_VALUES = ["x", "1", "ex.com", "a;b", "a; Secure", "\xe9", "☃", "a b", " x", "x ", "a\r\nb", "", "a,b", "a=b", "\x00",
+                 "5", "01-Jan-2030", "Wed, 01 Jan 2030 00:00:00 GMT", "x;Domain=evil.example;HttpOnly",
+                 "Wed, 01 Jan 2030 00:00:00 GMT; Domain=evil.example; HttpOnly", "1;Secure", "a\x7fb", "a\tb"]
+
+
+def _legacy_keys():
+    """Every attribute the cookie library knows (http.cookies.Morsel._reserved, whatever the running Python
+    version defines) in the spellings that end up in **kwargs of set_cookie: the display spelling
+    (Expires, Max-Age, HttpOnly ...), upper case, capitalised, and lower case where that is not an
+    explicit parameter of set_cookie; plus spellings the library does not know (rejected)."""
+    import http.cookies
+    explicit = {"expires", "path", "domain", "secure", "httponly", "samesite", "max_age", "expires_days", "name", "value"}
+    keys = []
+    for low, shown in http.cookies.Morsel._reserved.items():
+        for k in (shown if shown != low else low.capitalize(), low.upper(), low.capitalize(), low):
+            if k not in explicit and k not in keys:
+                keys.append(k)
+    return keys + ["Max_Age", "Partitionedx"]
+
+
+LEGACY_KEYS = _legacy_keys()
 
 
 def _choices(api):
@@ -484,10 +511,10 @@ def _choices(api):
         out += [("expires_days", v) for v in (None, 0, 1, 30, 0.5, -1, 365)] * 2
     if api == "signed":
         out += [("version", 1), ("version", 2)] * 3
-    for k in ["Domain", "Path", "SameSite", "Version", "Comment", "PATH"]:
+    for k in LEGACY_KEYS:
         out += [("legacy", (k, v)) for v in LEGACY_VALUES]
-    for k in ["Secure", "HttpOnly", "HTTPOnly"]:
-        out += [("legacy", (k, True)), ("legacy", (k, False))]
+        if k.lower() in FLAGS:
+            out += [("legacy", (k, True)), ("legacy", (k, False))] * 3
     return out
 
 
@@ -550,9 +577,24 @@ def _accept_then_reject():
 case_s = st.one_of(st.lists(_op(), min_size=1, max_size=3), st.lists(_op(), min_size=1, max_size=3),
                    st.lists(_op(), min_size=1, max_size=3), _accept_then_reject())
 
-PARTS = {"main": run_case}
+def legacy_sweep():
+    """Every legacy spelling of every cookie attribute x every payload, alone and on top of explicit
+    parameters, through set_cookie / set_signed_cookie / clear_cookie."""
+    for k in LEGACY_KEYS:
+        vals = list(LEGACY_VALUES) + ([True, False] if k.lower() in FLAGS else [])
+        for v in vals:
+            yield [("set", "a", "v", {"legacy": {k: v}})]
+            yield [("set", "a", "v", {"domain": "example.com", "secure": True, "max_age": 7, "expires": ("num", 86400),
+                                      "legacy": {k: v}})]
+        for v in ("x;Domain=evil.example;HttpOnly", "a b", "ok"):
+            yield [("signed", "a", "v", {"legacy": {k: v}})]
+            yield [("clear", "a", "", {"legacy": {k: v}})]
+
+
+PARTS = {"main": run_case, "legacy": run_case}
 
 
 def main(ctx):
     ctx.run_replays(PARTS)
+    ctx.enumerate(legacy_sweep(), run_case, name="legacy")
     ctx.explore(case_s, run_case, ctx.n(1500, 80000), name="main")
